@@ -236,6 +236,15 @@ def setup():
       _CUR['pool_args'].append(max_tag)
     return real_pool(_CUR['max'] if _CUR['max'] else max_tag, service, host)
 
+  class NoPing(object):
+    """random as seen by scales.thriftmux.sink: the periodic ping (every 30-40 s of real time) never fires by itself;
+    pings are sent by the 'ping' op."""
+
+    @staticmethod
+    def randint(a, b):
+      return 10 ** 7
+
+  tms.random = NoPing
   ms.Queue = CtlQueue
   ms.TagPool = pool_factory
   ob.gevent = ObsGevent()
@@ -378,7 +387,7 @@ def gen_cases(tier, seed):
   quick = tier == 'quick'
   out = []
   # ---- suite (a)
-  for i in range(250 if quick else 3000):
+  for i in range(500 if quick else 3000):
     r = C.case_rng(seed, PID + 'pool', i)
     out.append(_gen_pool(r, big=(i % 5 == 0)))
   for mx in [2, 3, 4, 5, 9]:
@@ -392,7 +401,7 @@ def gen_cases(tier, seed):
     out.append({'kind': 'fill', 'max': REAL_MAX, 'n': REAL_MAX - 2})     # the last tag: 2^24-2
     out.append({'kind': 'fill', 'max': REAL_MAX, 'n': REAL_MAX - 1})     # one more is refused
   # ---- suite (b)
-  for i in range(1000 if quick else 16000):
+  for i in range(2500 if quick else 16000):
     r = C.case_rng(seed, PID + 'mux', i)
     out.append(_gen_mux(r, r.choice([12, 25, 40, 70, 120])))
   for i in range(3 if quick else 12):
@@ -943,12 +952,12 @@ def to_coq(case, obs):
         exp.append('OReleased %s' % C.blit(o[1] > 0) if o[1] in (0, 1) and o[2] == 'None' else 'OBadPick')
     return 'CPool %s %s %s' % (C.zlit(case['max']), C.lst(ops), C.lst(exp))
   if k == 'fill':
-    if obs['last'] is None or not obs['contiguous'] or case['max'] < 2:
+    if not obs['contiguous'] or case['max'] < 2:
       return None
     want_ref = obs['refused'] > 0
     if obs['refused'] not in (0, max(0, case['n'] - (case['max'] - 2))):
       return 'CFill %s %s (-1)%%Z true None' % (C.zlit(case['max']), C.zlit(case['n']))    # cannot match
-    return 'CFill %s %s %s %s %s' % (C.zlit(case['max']), C.zlit(case['n']), C.zlit(obs['last']), C.blit(want_ref),
+    return 'CFill %s %s %s %s %s' % (C.zlit(case['max']), C.zlit(case['n']), C.zlit(1 if obs['last'] is None else obs['last']), C.blit(want_ref),
                                      C.opt(C.zlit(obs['after'])) if obs['after'] is not None else 'None')
   if len(case['ops']) > MAX_COQ_OPS:
     return None
@@ -977,7 +986,13 @@ def _branches(case, obs):
   closed = False
   tagof = {}
   answered_unsent = set()
+  answered = set()
   sent = set()
+  subscribed = set()
+  fired = set()
+  pending = set()
+  known = {}
+  conn = 0
   for op, evs in zip(case['ops'], obs['steps']):
     k = op[0]
     names = [e[0] + (':' + e[1] if e[0] in ('enq', 'wr') else '') for e in evs]
@@ -988,33 +1003,66 @@ def _branches(case, obs):
         b['req:not-open'] += 1
       elif 'enq:req' in names:
         t = [e for e in evs if e[0] == 'enq'][0][2]
-        b['req:dl%d' % min(op[2], 2)] += 1
+        b['req:dl%d:%s' % (min(op[2], 2), 'recycled' if t in tagof.values() else 'fresh')] += 1
         tagof[op[1]] = t
       else:
         b['req:not-new'] += 1
+      if op[1] not in known:
+        known[op[1]] = (conn, op[2])
+        if op[2] >= 2:
+          fired.add(op[1])
+          pending.add(op[1])
     elif k == 'send':
       if not evs:
         b['send:idle'] += 1
       elif 'closed' in names:
         b['send:write-failed'] += 1
       elif 'drop' in names:
-        b['send:dropped'] += 1
+        c = [e for e in evs if e[0] == 'drop'][0][2]
+        b['send:dropped-' + ('after-premature-reply' if c in answered else 'tag-released')] += 1
       else:
         for e in evs:
           if e[0] == 'wr':
             b['send:written-' + e[1]] += 1
             if e[1] == 'req':
               sent.add(e[3])
+              if known.get(e[3], (0, 0))[1] == 1 and e[3] not in fired:
+                subscribed.add(e[3])
+                b['send:subscribed-timeout-handler'] += 1
               if e[3] in answered_unsent:
                 b['send:written-after-premature-reply'] += 1
+    elif k == 'fire':
+      c = op[1]
+      if c not in known or known[c][0] != conn:
+        b['fire:not-applicable'] += 1
+      elif known[c][1] == 0:
+        b['fire:no-deadline'] += 1
+      elif c in fired:
+        b['fire:already-fired'] += 1
+      else:
+        fired.add(c)
+        pending.add(c)
+        b['fire:set'] += 1
     elif k == 'notify':
+      c = op[1]
       if 'enq:discard' in names:
         b['notify:discard' + ('-after-close' if closed else '')] += 1
+      elif c not in known or known[c][0] != conn or c not in pending:
+        b['notify:not-applicable'] += 1
+      elif c not in subscribed:
+        b['notify:no-subscriber'] += 1
+      elif c in answered:
+        b['notify:subscriber-already-answered'] += 1
+      elif case['proto'] == 'kafka':
+        b['notify:kafka-no-discard'] += 1
       else:
-        b['notify:nothing'] += 1
+        b['notify:other'] += 1
+      pending.discard(c)
+      subscribed.discard(c)
     elif k == 'recv':
       if 'deliver' in names:
         c = [e for e in evs if e[0] == 'deliver'][0][1]
+        answered.add(c)
         b['recv:answers'] += 1
         if c not in sent:
           answered_unsent.add(c)
@@ -1039,6 +1087,7 @@ def _branches(case, obs):
       closed = True
     if k == 'reopen' and closed:
       closed = False
+      conn += 1
   return b
 
 
